@@ -158,7 +158,9 @@ def replay(cand):
                 if key == 'tmp':
                     c2 *= 4
                 bound += 2 * kappa / c2
-    tol = 1e-7 * scale + 1e-300
+    # relative to the size of the terms, plus an absolute floor for the rounding of (1 - p) when p is within an ulp of 1
+    # (corner points with 20-beta mismatches): a genuine imbalance is of order 1e-3/beta or more
+    tol = 1e-7 * scale + 1e-11 / max(beta, 1e-300)
     violated = abs(total) > bound * (1 + 1e-9) + tol
     return {'violated': bool(violated),
             'key': f'{key}:{H.shape_str(shape)}:{H.ranks_str(ranks)}',
